@@ -216,40 +216,38 @@ def _main_loop(ctx):
     return tm, fn, loops[0]
 
 
+PREFIX_WITNESSES = [
+    '=SUM(A1,"a""b",{1,2;3,4})*-50%+\'My S\'!$B$2:C3&#N/A>=1.5E+3',
+    '=IF([Book1]Sheet1!A1<>"",TRUE, B1 C1)',
+    "='It''s'!A1 + #REF! ",
+    '=A1:B2 C1:C3^2*50%',
+]
+
+
 def rule_2(ctx):
-    tm, fn, loop = _main_loop(ctx)
-    roles = _roles(ctx)
-    readers, eof_names, offset_names, formula = roles['readers'], roles['eof'], roles['offset'], roles['formula']
-    sites = []
-    for n in walk_local(fn):
-        if isinstance(n, ast.Call) and isinstance(n.func, ast.Name) and n.func.id in readers:
-            sites.append(n)
-        elif isinstance(n, ast.Subscript) and not isinstance(n.slice, ast.Slice) \
-                and isinstance(n.value, ast.Name) and n.value.id == formula \
-                and names_in(n.slice) & offset_names and flow.contains(loop, n):
-            sites.append(n)
-    counter = {}
-    for site in sorted(sites, key=flow.pos):
-        conds = flow.path_conditions(site, kill_names=offset_names, extra_kill_calls=eof_names)
-        in_bounds = False
-        for c in conds:
-            if _is_not_eof(c.test, eof_names, c.polarity):
-                in_bounds = True
-        # label by the innermost enclosing branch test
-        branch = next((c for c in flow.path_conditions(site) if c.kind in ('if', 'while')), None)
-        label = ast.unparse(branch.test)[:48] if branch else 'top'
-        own = ast.unparse(stmt_test(site))[:40]
-        key = f'read in `{own}` under `{label}`'
-        counter[key] = counter.get(key, 0) + 1
-        construct = f'{key}#{counter[key]}'
-        if not in_bounds and _after_argument_separator(site):
-            ctx.ok(site, construct, 'allow-listed: read right after consuming "," - a well-formed '
-                                    'formula never ends in a comma')
-            continue
-        ctx.expect(in_bounds, site, construct,
-                   'single-character read of the formula is not dominated by a still-valid end-of-formula '
-                   'test (IndexError on a formula that ends here, e.g. a trailing blank)')
-    ctx.floor(30, 'currentChar()/formula[offset] read sites')
+    """The tokenizer never reads beyond the end of the formula: every prefix of witness formulas that exercise each state of the
+    scanner (string, quoted sheet name, bracket, error literal, array, scientific notation, blanks, two-character comparators),
+    tokenized as written, ends without a Python-level exception - wherever the text stops. (A prefix that ends right after an
+    argument separator is allow-listed: a well-formed formula never ends in a comma.)"""
+    from . import parsetables as P
+    gt = ctx.mod('tokenizer').func('ExcelParser.getTokens')
+    n = 0
+    for f in PREFIX_WITNESSES:
+        lengths = range(2, len(f) + 1) if ctx.tier != 'quick' else sorted(set(list(range(2, len(f) + 1, 2)) + [len(f)]))
+        bad = []
+        for i in lengths:
+            p = f[:i]
+            if p.rstrip().endswith(','):
+                continue
+            n += 1
+            t = P.tokens_of(ctx, p)
+            if not isinstance(t, list):
+                bad.append(f'{p!r} -> {t[1] if isinstance(t, tuple) and len(t) > 1 else t}')
+        ctx.expect(not bad, gt, f'every prefix of {f[:24]}... tokenizes',
+                   'tokenizing ends in a Python-level exception for ' + '; '.join(bad[:4]) + ': a single-character read of the formula '
+                   'is not preceded by a still-valid end-of-formula test')
+    ctx.floor(4, 'prefix families')
+    ctx.note(f'{n} prefixes tokenized')
 
 
 def stmt_test(site):
@@ -471,197 +469,37 @@ def rule_4(ctx):
     ctx.floor(4, 'three tables + count')
 
 
+STATE_WITNESSES = [
+    # (formula, content that must end up inside ONE operand token, in order)
+    ('="a+(b,{c}#\'[ %;<>"', 'a+(b,{c}#\'[ %;<>'),
+    ('="say ""+"" now"', 'say "+" now'),
+    ("='My+Sheet(1),{x}'!A1", 'My+Sheet(1),{x}!A1'),
+    ("='It''s (a) \"b\"'!B2", 'It\'s (a) "b"!B2'),
+    ('=[Book+1,(x)]Sheet1!A1', 'Book+1,(x)]Sheet1!A1'),
+    ('=#REF!', '#REF!'), ('=#DIV/0!', '#DIV/0!'), ('=#N/A', '#N/A'),
+]
+
+
 def rule_5(ctx):
-    tm, fn, loop = _main_loop(ctx)
-    flags = []
-    for s in loop.body:
-        if isinstance(s, ast.If) and isinstance(s.test, ast.Name):
-            flags.append((s.test.id, s))
-    # flags are booleans initialised False before the loop and set True in some delimiter branch
-    set_true = {t.id for n in ast.walk(loop) if isinstance(n, ast.Assign) and isinstance(n.value, ast.Constant)
-                and n.value.value is True for t in n.targets if isinstance(t, ast.Name)}
-    state = [(name, s) for name, s in flags if name in set_true]
-    ctx.expect(len(state) == 4 and {n for n, _ in state} == set_true, loop, 'four state blocks',
-               f'state flags with a block at the top of the loop: {[n for n, _ in state]}; flags set: {sorted(set_true)}')
-    first_other = None
-    for i, s in enumerate(loop.body):
-        if not (isinstance(s, ast.If) and isinstance(s.test, ast.Name) and s.test.id in set_true):
-            first_other = i
-            break
-    for name, s in state:
-        idx = loop.body.index(s)
-        ctx.expect(first_other is None or idx < first_other, s, f'state block {name} first',
-                   f'the `{name}` block does not precede the state-independent character tests')
-        ctx.expect(flow.terminates(s.body) and not s.orelse, s, f'state block {name} leaves the iteration',
-                   f'inside `{name}` some path falls through to the delimiter tests')
-    # string content copied verbatim: inside the string state, the accumulator only receives
-    # the current character or a quote
-    strflag = None
-    for name, s in state:
-        # the block that emits a text operand
-        if any(isinstance(x, ast.Attribute) and x.attr == 'TOK_SUBTYPE_TEXT' for x in ast.walk(s)):
-            strflag = (name, s)
-    if strflag is None:
-        raise AnchorMissing('string state block (emits TOK_SUBTYPE_TEXT)')
-    name, s = strflag
-    roles = _roles(ctx)
-    emits0 = [c for c in ast.walk(s) if isinstance(c, ast.Call) and isinstance(c.func, ast.Attribute) and c.func.attr == 'add'
-              and any(isinstance(x, ast.Attribute) and x.attr == 'TOK_SUBTYPE_TEXT' for x in ast.walk(c))]
-    if not emits0 or not isinstance(emits0[0].args[0], ast.Name):
-        raise Unmodelled('text token is not emitted from a local accumulator')
-    acc = emits0[0].args[0].id
-    for n in ast.walk(s):
-        if isinstance(n, ast.AugAssign) and isinstance(n.target, ast.Name) and n.target.id == acc:
-            v = n.value
-            verbatim = (isinstance(v, ast.Call) and isinstance(v.func, ast.Name) and v.func.id in roles['readers']) \
-                or (isinstance(v, ast.Constant) and v.value == '"')
-            ctx.expect(isinstance(n.op, ast.Add) and verbatim, n, f'string accumulation `{ast.unparse(v)[:20]}`',
-                       f'characters of a string literal are transformed: token {type(n.op).__name__}= {ast.unparse(v)}')
-        elif isinstance(n, ast.Assign) and any(isinstance(t, ast.Name) and t.id == acc for t in n.targets):
-            ok = isinstance(n.value, ast.Constant) and n.value.value == ''
-            ctx.expect(ok, n, 'string accumulator reset', 'string accumulator assigned a non-empty value')
-    # doubled quote: the branch consuming two characters appends exactly one quote
-    dq = [n for n in ast.walk(s) if isinstance(n, ast.If) and any(
-        isinstance(c, ast.Call) and isinstance(c.func, ast.Name) and c.func.id in roles['lookahead'] for c in ast.walk(n.test))]
-    ok = False
-    if dq:
-        body = dq[0].body
-        adds = [b for b in body if isinstance(b, ast.AugAssign) and isinstance(b.target, ast.Name) and b.target.id == acc]
-        skips = [b for b in body if isinstance(b, ast.AugAssign) and isinstance(b.target, ast.Name) and b.target.id in roles['offset']]
-        ok = len(adds) == 1 and isinstance(adds[0].value, ast.Constant) and adds[0].value.value == '"' and len(skips) == 1
-    ctx.expect(ok, s, 'doubled quote -> one quote', 'a doubled quote inside a string does not yield exactly one quote character')
-    # the text token is emitted with the accumulated content, unchanged
-    emits = [c for c in ast.walk(s) if isinstance(c, ast.Call) and isinstance(c.func, ast.Attribute) and c.func.attr == 'add'
-             and any(isinstance(x, ast.Attribute) and x.attr == 'TOK_SUBTYPE_TEXT' for x in ast.walk(c))]
-    ok = len(emits) == 1 and isinstance(emits[0].args[0], ast.Name) and emits[0].args[0].id == acc
-    ctx.expect(ok, s, 'text operand carries the accumulated characters',
-               'the text token is not emitted with the accumulated characters as they are')
-    ctx.floor(12, 'state blocks, accumulation sites')
+    """Scanner states come first: inside a string literal, a quoted sheet name, a bracketed workbook part and an error literal every
+    character is content - operators, parentheses, commas, braces, quotes of the other kind split nothing - and a doubled quote is
+    one quote. Decided by tokenizing witness formulas as written."""
+    from . import parsetables as P
+    gt = ctx.mod('tokenizer').func('ExcelParser.getTokens')
 
-
-def _rule_7_fragment(ctx):
-    """Renderings that must not matter: leading '=', leading blanks, '@' before a function name."""
-    pm = ctx.mod('parser')
-    tk = pm.func('FormulaParser.tokenize')
-    strips = [n for n in walk_local(tk) if isinstance(n, ast.If) and any(
-        isinstance(c, ast.Call) and isinstance(c.func, ast.Attribute) and c.func.attr == 'startswith'
-        and c.args and isinstance(c.args[0], ast.Constant) and c.args[0].value == '=' for c in ast.walk(n.test))]
-    tm, fn, loop = _main_loop(ctx)
-    pre = [s for s in fn.body if isinstance(s, ast.While) and s is not loop
-           and flow.pos(s) < flow.pos(loop)]
-    lead = False
-    for w in pre:
-        consts_ = {x.value for x in ast.walk(w) if isinstance(x, ast.Constant) and isinstance(x.value, str)}
-        if '=' in consts_ and ' ' in consts_:
-            lead = True
-    ctx.expect(lead, fn, 'leading blanks and "=" skipped by the tokenizer',
-               'getTokens no longer skips leading blanks/newlines and one leading "="')
-    ctx.expect(bool(strips) or lead, tk, 'leading "=" removed before tokenizing',
-               'FormulaParser.tokenize does not remove the leading "="')
-    at = [n for n in walk_local(fn) if isinstance(n, ast.If) and any(
-        isinstance(x, ast.Constant) and x.value == '@' for x in ast.walk(n.test))]
-    ok = False
-    for n in at:
-        conds = flow.path_conditions(n)
-        under_func = any(any(isinstance(x, ast.Attribute) and x.attr == 'TOK_TYPE_FUNCTION' for x in ast.walk(c.test))
-                         and c.polarity for c in conds)
-        strip = any(isinstance(b, ast.Assign) and isinstance(b.value, ast.Subscript)
-                    and isinstance(b.value.slice, ast.Slice) and isinstance(b.value.slice.lower, ast.Constant)
-                    and b.value.slice.lower.value == 1 for b in n.body)
-        if under_func and strip:
-            ok = True
-    ctx.expect(ok, fn, '"@" removed in front of function names',
-               'a leading "@" on a function name is not removed')
-    # whitespace between tokens: blanks and newlines are the same class everywhere they are tested
-    ws_tests = []
-    for n in walk_local(fn):
-        if isinstance(n, ast.Compare) and len(n.ops) == 1 and isinstance(n.ops[0], ast.In) \
-                and isinstance(n.comparators[0], ast.Tuple):
-            vals = [e.value for e in n.comparators[0].elts if isinstance(e, ast.Constant)]
-            if ' ' in vals:
-                ws_tests.append((n, tuple(sorted(vals))))
-    for n, vals in ws_tests:
-        ctx.expect(set(vals) >= {' ', '\n'}, n, f'whitespace class {vals!r}',
-                   f'whitespace test {ast.unparse(n)[:40]} does not treat newline like a blank')
-    ctx.floor(5, 'rendering-independence sites')
-
-
-
-class _WsTokens(PyModel):
-    def __init__(self, prev, nxt, bof=False, eof=False):
-        self._p, self._n, self._bof, self._eof = prev, nxt, bof, eof
-
-    def BOF(self):
-        return self._bof
-
-    def EOF(self):
-        return self._eof
-
-    def previous(self):
-        return self._p
-
-    def next(self):
-        return self._n
-
-    def __next__(self):
-        return self._n
-
-
-def _rule_8_fragment(ctx):
-    """Decision table of the white-space filter: a blank becomes an intersection operator
-    exactly between something that ends an operand and something that starts one."""
-    consts = _tok_consts(ctx)
-    tm = ctx.mod('tokenizer')
-    fn = tm.func('ExcelParser.getTokens')
-    ws = [n for n in walk_local(fn) if isinstance(n, ast.If) and any(
-        isinstance(x, ast.Attribute) and x.attr == 'TOK_TYPE_WSPACE' for x in ast.walk(n.test))
-        and any(isinstance(x, ast.Attribute) and x.attr == 'TOK_SUBTYPE_INTERSECT' for x in ast.walk(n))]
-    if len(ws) != 1:
-        raise AnchorMissing(f'white-space filter: {len(ws)} candidates')
-    sw = ws[0]
-    tokvar = next(x.value.id for x in ast.walk(sw.test) if isinstance(x, ast.Attribute)
-                  and x.attr == 'ttype' and isinstance(x.value, ast.Name))
-    src = {c.func.value.id for c in ast.walk(sw) if isinstance(c, ast.Call) and isinstance(c.func, ast.Attribute)
-           and c.func.attr in ('previous', 'next', 'BOF', 'EOF') and isinstance(c.func.value, ast.Name)}
-    dst = {c.func.value.id for c in ast.walk(sw) if isinstance(c, ast.Call) and isinstance(c.func, ast.Attribute)
-           and c.func.attr in ('add', 'addRef') and isinstance(c.func.value, ast.Name)}
-    if len(src) != 1 or len(dst) != 1:
-        raise Unmodelled(f'white-space filter reads {sorted(src)} writes {sorted(dst)}')
-    srcv, dstv = src.pop(), dst.pop()
-    types = sorted({v for k, v in consts.items() if k.startswith('TOK_TYPE_')})
-    subs = [consts['TOK_SUBTYPE_START'], consts['TOK_SUBTYPE_STOP'], '']
-    O, F, S = consts['TOK_TYPE_OPERAND'], consts['TOK_TYPE_FUNCTION'], consts['TOK_TYPE_SUBEXPR']
-    start, stop = consts['TOK_SUBTYPE_START'], consts['TOK_SUBTYPE_STOP']
-
-    def ends(t, s_):
-        return t == O or (t in (F, S) and s_ == stop)
-
-    def starts(t, s_):
-        return t == O or (t in (F, S) and s_ == start)
-
-    kinds = [(t, s_) for t in types for s_ in subs]
-    cases = [(('BOF', None), kinds[0], True, False), (kinds[0], ('EOF', None), False, True)]
-    cases += [(p_, n_, False, False) for p_ in kinds for n_ in kinds]
-    for p_, n_, bof, eof in cases:
-        prev = Rec(ttype=p_[0], tsubtype=p_[1], tvalue='x') if p_[1] is not None else None
-        nxt = Rec(ttype=n_[0], tsubtype=n_[1], tvalue='x') if n_[1] is not None else None
-        env = {tokvar: Rec(ttype=consts['TOK_TYPE_WSPACE'], tsubtype='', tvalue=''),
-               srcv: _WsTokens(prev, nxt, bof, eof)}
-        it = Interp(ctx.a, tm, env, effect_receivers=(dstv,), self_class='pkg:tokenizer:ExcelParser')
-        out = it.run([sw])
-        emitted = [e for e in out.events if e[0] == f'{dstv}.add']
-        kept_ws = [e for e in out.events if e[0] == f'{dstv}.addRef']
-        want = (not bof and not eof) and ends(*p_) and starts(*n_)
-        construct = f'blank between {p_} and {n_}'
-        ok = (bool(emitted) == want) and not kept_ws
-        if emitted and want:
-            a = emitted[0][1]
-            ok = ok and len(a) >= 3 and a[1] == consts['TOK_TYPE_OP_IN'] and a[2] == consts['TOK_SUBTYPE_INTERSECT']
-        ctx.expect(ok, sw, construct,
-                   f'a blank between {p_} and {n_} is {"kept as an intersection operator" if emitted else "dropped"}'
-                   f'{" (white-space token passed on)" if kept_ws else ""}; it must be '
-                   f'{"an intersection operator" if want else "dropped"}')
-    ctx.floor(900, 'previous kind x next kind')
+    def inside(content, text):
+        it = iter(text)
+        return all(ch in it for ch in content)
+    for formula, content in STATE_WITNESSES:
+        for wrapped, extra in ((formula, 0), ('=1+' + formula[1:] + '&"z"', 4)):
+            toks = P.tokens_of(ctx, wrapped)
+            ok = isinstance(toks, list) and len(toks) == 1 + extra and any(t[1] == 'operand' and inside(content, t[0]) for t in toks)
+            if ok and formula.startswith('="'):
+                ok = any(t[0] == content and t[2] == 'text' for t in toks)
+            ctx.expect(ok, gt, f'state content is opaque: {wrapped}',
+                       f'{wrapped} is tokenized as {toks!r}: the characters {content!r} must end up inside one operand token (a string literal '
+                       'with exactly these characters)')
+    ctx.floor(16, 'state witnesses')
 
 
 def rule_9(ctx):
